@@ -14,6 +14,9 @@
   sweep-termination              the message sweeps of loopy / generalized BP may stop before `iters` only at an EXACT fixed point of the messages
                                  (`np.array_equal`): a tolerance test (`allclose`, a norm below a threshold) stops with an unsummed tail, and the
                                  marginals of a long, strongly coupled tree are then not the exact ones
+  per-region-partition           the union-find that merges the parents of ONE region (minimal region graph) is either created anew for every
+                                 region, or shared with every key naming the region: keys shared between regions let unions made for one
+                                 region decide the edges of another
   call-local-cache               a memo table on the oracle object whose entries depend on the call's arguments is emptied by that call
   gbp-message-sets               the three message sets of the minimal region-graph propagation are instances of ONE recipe - In(x) =
                                  edges entering the sub-graph below x from outside: {(s, x) : s parent of x} + {(q, d) : d descendant of x,
@@ -78,6 +81,7 @@ def run(ctx):
     check_identity_compares(ctx)
     check_on_copies(ctx)
     check_sweep_termination(ctx)
+    check_region_partition(ctx)
     ctx.floor('returned-table constructions', n_ret, 2)
     check_gbp_sets(ctx)
     check_call_local_caches(ctx, [gbp, lbp, cm, repo.nfunc(RG, 'RegionGraph.hazan_peng_shashua')])
@@ -138,6 +142,54 @@ def check_sweep_termination(ctx):
                 else:
                     raise AnalysisError('%s: early exit `%s` of the sweep loop is neither an exact fixed-point test nor a tolerance test' % (q, U(guard.test)[:60]))
     ctx.floor('sweep loops examined', n, 2)
+
+
+def check_region_partition(ctx):
+    fi = ctx.repo.nfunc(RG, 'RegionGraph.build_graph')
+    ctx.analysed(fi)
+    allocs = [s_ for s_ in ast.walk(fi.node) if isinstance(s_, ast.Assign) and len(s_.targets) == 1 and isinstance(s_.targets[0], ast.Name)
+              and isinstance(s_.value, ast.Call) and U(s_.value.func) == 'DisjointSet']
+    n = 0
+    for a in allocs:
+        ds = a.targets[0].id
+        uses = [c for c in ast.walk(fi.node) if isinstance(c, ast.Call) and isinstance(c.func, ast.Attribute) and U(c.func.value) == ds
+                and c.func.attr in ('find', 'union')]
+        if not uses:
+            continue
+        # the innermost loop that contains every use: the loop over the regions
+        def loops_of(x):
+            out, par = [], getattr(x, '_parent', None)
+            while par is not None:
+                if isinstance(par, ast.For):
+                    out.append(par)
+                par = getattr(par, '_parent', None)
+            return out
+        common = None
+        for u in uses:
+            ls = loops_of(u)
+            common = ls if common is None else [l for l in common if l in ls]
+        if not common:
+            raise AnalysisError('build_graph: the union-find `%s` is not used inside a loop over the regions' % ds)
+        region_loop = common[-1]          # outermost common loop
+        if not isinstance(region_loop.target, ast.Name):
+            raise AnalysisError('build_graph: unrecognised region loop')
+        r = region_loop.target.id
+        n += 1
+        inside = region_loop in loops_of(a)
+        if inside:
+            ctx.ob('per-region-partition', fi, a, True, 'a fresh union-find per region `%s`' % r, construct='union-find of the minimal region graph')
+            continue
+        bad = []
+        for u in uses:
+            for arg in u.args:
+                if not (isinstance(arg, ast.Tuple) and any(isinstance(e, ast.Name) and e.id == r for e in arg.elts)):
+                    bad.append(U(u))
+        ctx.ob('per-region-partition', fi, a, not bad,
+               'ONE union-find `%s` serves every region `%s`: %s' % (ds, r, 'every key names the region, so the regions do not interact' if not bad else
+                                                                    'keys such as in `%s` do not name the region; a parent shared by two regions is then one '
+                                                                    'element, and the unions made for one region merge (or redirect) the parents of another'
+                                                                    % bad[0]), construct='union-find of the minimal region graph')
+    ctx.floor('union-find partitions examined', n, 1)
 
 
 def check_on_copies(ctx):
